@@ -2,9 +2,14 @@
 
 package verifhook
 
+import "unsafe"
+
 const RaceBuild = false
 
 func raceOff() {}
 func raceOn()  {}
 
 func RaceErrors() int { return 0 }
+
+func raceReleaseMerge(a unsafe.Pointer) {}
+func raceAcquire(a unsafe.Pointer)      {}
